@@ -80,18 +80,51 @@ def mon_records(tr):
     other without a gap (the identifier is the acceptance count)"""
     out = []
     last = {1: None, 2: None}
+    maxseq = None              # the highest storage sequence number in the store, when known
+    listing = None             # the valid records of the last `store` listing: key -> storage sequence number
+    slow_store = any(o.split()[:1] == ["sgate"] for o, _ in tr)     # two Saves parked in the store may be logged in either order
     w = Wire()
     for i, (op, lines) in enumerate(tr):
         f = op.split()
         if f and f[0] in ("init", "vinit", "adopt", "initx", "damage", "wrapstore"):
             last = {1: None, 2: None}
+            maxseq = 0 if f[0] == "init" else None
+        if f and f[0] == "store":
+            listing = {}
+            for l in lines:
+                if l.startswith("store"):
+                    for ent in l.split()[1:]:
+                        k, v, n = ent.split(":")
+                        if v != "corrupt":
+                            listing[int(k, 16)] = int(n)
+        elif f and f[0] == "adopt":
+            res = [l for l in lines if l.startswith("adopt ")]
+            if listing is not None and i > 0 and tr[i - 1][0].split()[:1] == ["store"] and res and res[0].startswith("adopt ok"):
+                # the session continues: storage sequence numbers go on after the highest one in the store, and - when AdoptSession
+                # had nothing to complain about - identifiers go on after the newest pending one of each level
+                maxseq = max([n for k, n in listing.items() if outbound_key(k)] or [0])      # (only outbound records are ordered by it)
+                if res[0].split()[2:3] == ["-"]:
+                    for lvl, lo in ((1, 0x8000), (2, 0xc000)):
+                        ks = {k for k in listing if lo <= k < lo + 0x4000}
+                        ends = [k for k in ks if (lo | ((k + 1) & 0x3fff)) not in ks]
+                        if len(ends) == 1 and len(ks) < 0x4000:
+                            last[lvl] = ends[0]
+            listing = None
+        elif f and f[0] != "counters":
+            listing = None if f and f[0] in ("damage",) else listing
         for l in lines:
             p = l.split()
             if l.startswith("ev save ") and len(p) == 5 and ":" not in p[3]:
                 try:
                     key, pk = int(p[2], 16), unhex(p[3])
+                    seq = int(p[4])
                 except ValueError:
                     continue
+                if outbound_key(key):
+                    if maxseq is not None and not slow_store and seq <= maxseq:
+                        out.append(("records:storage-sequence", "the record saved under key %x got the storage sequence number %d although the store held %d already: "
+                                    "a later AdoptSession would sort it before older records" % (key, seq, maxseq)))
+                    maxseq = seq if maxseq is None else max(maxseq, seq)
                 if key == 0 or not pk:
                     continue
                 t, qos = pk[0] >> 4, (pk[0] >> 1) & 3
